@@ -63,6 +63,8 @@ def rand_string_const(rng, maxlen=8):
             out.append('\\n')
         else:
             out.append(rng.choice(STR_CHARS))
+    if rng.random() < 0.15:
+        out.append('\\\\')          # a string ending in an escaped backslash: the next quote closes it
     out.append('"')
     return ''.join(out)
 
@@ -245,8 +247,8 @@ def json_to_node(j):
 
 
 # ------------------------------------------------------------ random text
-FRAGS = ['(', ')', '/', ':', ':ARG0', ':r-of', 'a', 'b', 'x1', '"s t"', '"a\\"b"', '~1', '~e.2,3', '~E.1', ' ', '  ', '\n', '\t',
-         '#', '# ::id 1', '"', '\\', '~', ',', '^', '.', '-', '0', '1.5', SC['nbsp'], SC['ls'], SC['vt'], SC['ff'], SC['cr'],
+FRAGS = ['(', ')', '/', ':', ':ARG0', ':r-of', 'a', 'b', 'x1', '"s t"', '"a\\"b"', '"x\\\\"', '"\\\\" "y"', '~1', '~e.2,3', '~E.1', ' ', '  ', '\n', '\t',
+         '#', '# ::id 1', '# ::a 1  ::b two words  ::c', '"', '\\', '~', ',', '^', '.', '-', '0', '1.5', SC['nbsp'], SC['ls'], SC['vt'], SC['ff'], SC['cr'],
          SC['isp'], SC['nel'], SC['fs'], 'é', SC['cjk'], '::', ' ::k v', ':op1', '(a / b)', '(a :r (b))', 'instance(a, b)', ' ^ ']
 
 
